@@ -242,7 +242,32 @@ def drive_lifetimes(rec, quick):
         table_kind("q120_intt", "q120_new_intt_bb_precomp", "p u", lambda m: (m,), q120_call("q120_intt_bb_avx2"), "q120_del_intt_bb_precomp"),
     ]
     ok = 0
-    for (name, make, call, delete) in kinds:
+    events = []
+    ids = {}
+
+    def hash2(b):
+        d = hashlib.sha256(b).digest()
+        return int.from_bytes(d[:4], "little") & 0x7FFFFFFF, int.from_bytes(d[4:8], "little") & 0x7FFFFFFF
+
+    counter = [0]
+
+    def ev_new(obj, key):
+        counter[0] += 1                  # an identifier is never reused, an address may be
+        ids[obj] = counter[0]
+        events.append({"e": "New", "id": ids[obj], "key": key, "_what": "constructor of %s" % key})
+
+    def ev_del(obj):
+        events.append({"e": "Del", "id": ids.pop(obj), "_what": "destructor"})
+
+    for (name, make0, call, delete0) in kinds:
+        def make(mm, make0=make0, name=name):
+            t = make0(mm)
+            ev_new(("t", t), "%s/%d" % (name, mm))
+            return t
+
+        def delete(t, delete0=delete0):
+            ev_del(("t", t))
+            delete0(t)
         for m in ([16, 64] if quick else [4, 16, 64, 1024]):
             data = dbl(4 * m)
             first = {}
@@ -258,9 +283,9 @@ def drive_lifetimes(rec, quick):
                 rec.case(("lifetime", name, mm == m, what))
                 if got is None or why:
                     rec.violation(label + ": " + (why or "write outside a buffer"), {"kind": name, "m": mm})
-                elif first.setdefault(mm, got) != got:
-                    rec.violation(label + ": the result differs from the first result for the same arguments", {"kind": name, "m": mm})
                 else:
+                    h1, h2 = hash2(got)
+                    events.append({"e": "Use", "id": ids[("t", t)], "arg": "d%d" % mm, "h1": h1, "h2": h2, "_what": label})
                     ok += 1
             data2 = dbl(8 * m)
             t1, t2 = make(m), make(m)
@@ -298,24 +323,34 @@ def drive_lifetimes(rec, quick):
                 got = R.u8.tobytes()
                 if not all(x.canaries_ok() for x in (A, B, R, T)):
                     rec.violation(label + ": write outside a buffer", {"N": n})
-                elif first.setdefault(0, got) != got:
-                    rec.violation(label + ": the result differs from the first result for the same arguments", {"N": n})
                 else:
+                    h1, h2 = hash2(got)
+                    events.append({"e": "Use", "id": ids[("m", mod)], "arg": "ab", "h1": h1, "h2": h2, "_what": label})
                     ok += 1
-            m1, m2 = L.module(n, FFT64, mask), L.module(n, FFT64, mask)
+
+            def new_mod(nn, mk):
+                mo = L.module(nn, FFT64, mk)
+                ev_new(("m", mo), "fft64/%d/mask%d" % (nn, mk))
+                return mo
+
+            def del_mod(mo):
+                ev_del(("m", mo))
+                L.delete_module(mo)
+            m1, m2 = new_mod(n, mask), new_mod(n, mask)
             prod(m1, "first of two live modules")
             prod(m2, "second of two live modules")
-            L.delete_module(m1)
+            del_mod(m1)
             prod(m2, "after the other module of this dimension was deleted")
-            m3, m4 = L.module(n, FFT64, mask), L.module(2 * n, FFT64, MASK_NONE)
+            m3, m4 = new_mod(n, mask), new_mod(2 * n, MASK_NONE)
             prod(m2, "after two more modules were created")
             prod(m3, "third module of this dimension")
-            L.delete_module(m2)
-            L.delete_module(m4)
+            del_mod(m2)
+            del_mod(m4)
             prod(m3, "after two deletes")
-            L.delete_module(m3)
+            del_mod(m3)
     L.set_cpu_mask(MASK_NONE)
     rec.data["ok"] = ok
+    rec.data["events"] = events
 
 
 def drive_hist(rec, hists):
@@ -440,6 +475,16 @@ def run(chk, replay=None):
     Lib.get()
     chk.assumptions += ["inputs of a logical call are a function of (function, dimension, seed); all executions must agree byte for byte",
                         "reim_from_znx32/tnx32/to_tnx32_simple have no in-domain call (their kernels are NOT_IMPLEMENTED stubs) and are not driven"]
+    # the storage behind modules and tables: every object its own table (the code), or shared and counted - safe; shared and freed by
+    # the first delete - the witness that the safety invariant is not vacuous
+    for cfg in ("Lifecycle_own.cfg", "Lifecycle_refcount.cfg"):
+        rl = run_tlc("Lifecycle", cfg, workers=4, name="c15-" + cfg, timeout=600)
+        tlc_must_pass(rl, cfg)
+        chk.add_tlc(rl, "object life cycles, all histories of 9 steps over 3 objects and 2 keys (%s)" % cfg)
+    rl = run_tlc("Lifecycle", "Lifecycle_mut.cfg", workers=4, name="c15-lifecycle-mut", timeout=600)
+    chk.cov["shared_table_freed_by_first_delete_rejected_by_model"] = (rl.violation == "UseSafe")
+    if rl.violation != "UseSafe":
+        chk.notes.append("Lifecycle_mut.cfg did not violate UseSafe: the life-cycle invariant may be vacuous")
     r = run_tlc("SimpleCache", "SimpleCache_seq.cfg", workers=16, xmx="16g", name="c15-seq", timeout=1800)
     tlc_must_pass(r, "SimpleCache sequential histories")
     chk.add_tlc(r, "all histories of 4 calls over 4 functions x 2 dims x 2 divisors x 2 bounds")
@@ -485,8 +530,16 @@ def run(chk, replay=None):
         chk.violation("history replay: event %d %s: the table used does not match the call, or the result differs from an "
                       "earlier identical call" % (b, events[b]), {"event": events[b], "slice": events[max(0, b - 4):b + 2]})
     dl = isolated(chk, "lifetimes of tables and modules", drive_lifetimes, (quick,), timeout=1200)
-    chk.traces += dl["ok"] if dl else 0
-    chk.cov["lifetime_uses_identical"] = dl["ok"] if dl else 0
+    lev = dl["events"] if dl else []
+    badl, resl = validate_events("LifecycleTrace", "LifecycleTrace.cfg", [{k: v for k, v in e.items() if not k.startswith("_")} for e in lev],
+                                 "c15-life", nproc=1, timeout=900)
+    for rr in resl:
+        chk.add_tlc(rr, "trace validation of object life cycles")
+    for b in badl[:10]:
+        chk.violation("life cycle event %d (%s): the result differs from the result of the same call on another object of the same kind "
+                      "and dimension, or at another point of the history" % (b, lev[b]["_what"]), {"event": lev[b]})
+    chk.traces += (dl["ok"] if dl else 0) - len([b for b in badl if lev[b]["e"] == "Use"])
+    chk.cov["lifetime_events_validated"] = len(lev)
     programs = c16.generate(chk, ["Spqlios_sim.cfg", "Spqlios_sim_ntt.cfg"], 20 if quick else 200, 16, "c15")
     res = isolated_many(chk, [("programs under prefill/offset/interleaving variants, part %d" % i, drive_programs, (programs, i, 8))
                               for i in range(8)], timeout=2400, nproc=8)
